@@ -1,5 +1,7 @@
 import WacProofs.Lemmas.PrinterParseBase
 import WacProofs.Lemmas.PrinterParseExpr
+import WacProofs.Lemmas.PrinterParseTypes
+import WacProofs.Lemmas.PrinterParseStmt
 /-
   C13: the parser model applied to the token sequence of the token-level printer
   (`Wac.PrintTok.printTokens d`, with ANY byte offsets attached) succeeds and returns a tree that
@@ -13,6 +15,55 @@ import WacProofs.Lemmas.PrinterParseExpr
 -/
 namespace Wac.Lemmas.PrinterParse
 open Wac Wac.Ast Wac.Lex Wac.Parse Wac.PrintTok
+
+/-- the statements covered so far: `let`, `export`, `import` of anything but an inline interface -/
+def coveredStmt : Statement → Bool
+  | .Let _ => true
+  | .Export _ => true
+  | .Import s => (match s.ty with | .Interface _ => false | _ => true)
+  | .Type' _ => false
+
+/-- the documents covered so far -/
+def covered (d : Document) : Bool := d.statements.all coveredStmt
+
+theorem statement_ok_partial (hdocs : DocsNF) (s : Statement) (hwf : s.wf = true)
+    (hc : coveredStmt s = true) (fuel : Nat) (hf : 3 * (statement s).length ≤ fuel) :
+    ParsesTo (parseStatement fuel) Statement.erase (statement s) s (fun _ => True) := by
+  cases s with
+  | Let s => exact statement_let_ok hdocs s hwf fuel hf
+  | Export s => exact statement_export_ok hdocs s hwf fuel hf
+  | Type' s => simp [coveredStmt] at hc
+  | Import s =>
+    simp only [Statement.wf] at hwf
+    have hwf' := hwf
+    simp only [ImportStatement.wf, Bool.and_eq_true] at hwf'
+    refine statement_import_ok hdocs s hwf fuel
+      (importType_ok_simple s.ty hwf'.2 ?_ fuel ?_)
+    · intro i hi
+      simp [coveredStmt, hi] at hc
+    · have := importType_length_le s
+      simp only [statement] at hf
+      omega
+
+theorem statement_length_pos_partial (s : Statement) (hc : coveredStmt s = true) :
+    1 ≤ (statement s).length := by
+  cases s with
+  | Let s => simp [statement, letStatement]
+  | Export s => simp [statement, exportStatement]
+  | Import s => simp [statement, importStatement]
+  | Type' s => simp [coveredStmt] at hc
+
+/-- PARTIAL: the target for documents whose statements are `let`, `export` and `import`s of
+anything but inline interfaces. -/
+theorem parseTokens_printTokens_partial (hdocs : DocsNF) (d : Document) (hwf : d.wf = true)
+    (hc : covered d = true) (st : PState) (hst : E st = printTokens d) :
+    ∃ d', parseTokens st = .ok d' ∧ d'.erase = d.erase := by
+  have hwf' := hwf
+  simp only [Document.wf, Bool.and_eq_true, List.all_eq_true] at hwf'
+  simp only [covered, List.all_eq_true] at hc
+  exact document_ok hdocs d hwf
+    (fun s hs => statement_length_pos_partial s (hc s hs))
+    (fun s hs fuel hf => statement_ok_partial hdocs s (hwf'.2 s hs) (hc s hs) fuel hf) st hst
 
 /- FULL STATEMENT (target, work in progress): for every well-formed document, the parser on its
 printed tokens (whatever positions the lexer attached) returns the document up to positions and
